@@ -5,6 +5,7 @@
   closed gap of valid nodes in place is a valid payload.  `holeKids` is a condition on the step alone (no document).
 -/
 import Proofs.InsertAtValid
+import Proofs.FlatInsertCore
 namespace PM
 
 /-- `checkKids`, with one exemption: the node whose child list directly receives an insertion at offset `d` (the offset
@@ -153,7 +154,8 @@ theorem insertAt_closed_holeValid (S : Schema) (sl ins : Slice) (pos : Nat) (gap
     (hv : holeKids S sl.content pos = true)
     (h : sl.insertAt S pos gap = .ok (some ins)) :
     openValid S ins.openStart ins.openEnd ins.content = true := by
-  unfold Slice.insertAt at h
+  rw [insertAt_of_le (insertAt_ok h).1] at h
+  unfold Slice.insertAtIn at h
   rw [h0, h1] at h
   simp only [Nat.add_zero] at h
   split at h
